@@ -31,7 +31,8 @@ func Decrypt(cipherBlock cipher.Block, ciphertext []byte) ([]byte, error) {
 	}
 	iv := ciphertext[:aes.BlockSize]
 	cfb := cipher.NewCFBDecrypter(cipherBlock, iv)
-	text := ciphertext[aes.BlockSize:]
-	cfb.XORKeyStream(text, text)
+	// decrypt into a fresh buffer, leaving the caller's ciphertext intact
+	text := make([]byte, len(ciphertext)-aes.BlockSize)
+	cfb.XORKeyStream(text, ciphertext[aes.BlockSize:])
 	return base64.StdEncoding.DecodeString(string(text))
 }
